@@ -170,6 +170,7 @@ class Ctx:
         self.driver_ok = None
         self.mismatches = []       # correspondence diffs
         self.oracle_fails = []     # property failures on the implementation
+        self._fail_counts = {}
         self.streams = {}          # name -> {'cases': n, 'diffs': n}
         self.evaluations = 0
         self.keys = set()
@@ -361,7 +362,11 @@ class Ctx:
         return False
 
     def oracle_fail(self, key, what, case):
-        if len(self.oracle_fails) < 200:
+        # keep a few failures per key (so that many replays of one known finding cannot crowd out
+        # a different failure) and a generous overall bound
+        n = self._fail_counts.get(key, 0)
+        self._fail_counts[key] = n + 1
+        if n < 3 and len(self.oracle_fails) < 600:
             self.oracle_fails.append({'key': key, 'what': what, 'case': case})
 
     def note(self, s):
